@@ -58,6 +58,7 @@ let parse_uop (t : string list) : uop =
   | ["udp_recvfrom"; s] -> UUdpRecvFrom (zi s, List.map zi tl)
   | ["udp_arecv"; s; want; h] -> UUdpAsyncRecv (zi s, List.map zi tl, b1 want, zi h)
   | ["udp_wait"; s; h] -> UUdpWaitRead (zi s, zi h)
+  | ["udp_wait_write"; s; h] -> UUdpWaitWrite (zi s, zi h)
   | ["udp_df"; s; b] -> UUdpSetDF (zi s, b1 b)
   | ["udp_lep"; s] -> UUdpLocalEp (zi s)
   | ["tcp_new"; s; n] -> UTcpNew (zi s, zi n)
@@ -131,7 +132,8 @@ let parse_script (lines : string list list) : script =
       | ["MTUP"; f1; a1; f2; a2; m] -> w := { !w with w_mtus = !w.w_mtus @ [((mk_addr f1 a1, mk_addr f2 a2), zi m)] }
       | "HOST" :: id :: lat :: ec :: rest ->
           w := { !w with w_hosts = mset !w.w_hosts (zi id) { h_lat = zi lat; h_ec = zi ec; h_addrs = addr_list rest } }
-      | "M" :: "repeat" :: n :: rest ->
+      | "M" :: "repeat" :: n :: _ ->
+          let rest = (match t with _ :: _ :: _ :: r -> r | _ -> []) in     (* the whole line, buffers behind ':' included *)
           let ops = String.split_on_char ';' (String.concat " " rest) in
           let uops = List.map (fun o -> parse_uop (tokens o)) ops in
           for _ = 1 to int_of_string n do main := CmdOps uops :: !main done
@@ -169,6 +171,7 @@ let run (v : variant) (ic : in_channel) (oc : out_channel) =
             | EExec (n, TQueue (q, _)) -> Printf.fprintf oc "Z exec t=%s queue %s\n" (zs n) (zs q)
             | EExec (n, TResolve (r, _)) -> Printf.fprintf oc "Z exec t=%s resolve %s\n" (zs n) (zs r)
             | EExec (n, TAcceptAbort2 h) -> Printf.fprintf oc "Z exec t=%s abort2 %s\n" (zs n) (zs h)
+            | EExec (n, TUdpWritable (u, _)) -> Printf.fprintf oc "Z exec t=%s udp-writable %s\n" (zs n) (zs u)
             | EFire (n, i, _, _, _) -> Printf.fprintf oc "Z fire t=%s timer=%s\n" (zs n) (zs i)
             | _ -> ()) (List.rev s.trace);
       (* diagnostics of the model's final state (lines starting with Z are not compared) *)
